@@ -154,6 +154,7 @@ class Engine:
         self.inline_loops = inline_loops
         self._loops = {}
         self._promoted = {}
+        self._pconst = {}
         self._cur_site = None
         self._ended = []
         self.stats = {"paths": 0, "steps": 0, "inlined": set(), "opaque": set(), "max_depth_hit": 0}
@@ -260,6 +261,8 @@ class Engine:
     def cell_initial(self, cell):
         if cell[0] == "M":
             t = cell[1]
+            if t[0] == "pconst" and t in self._pconst:
+                return self._pconst[t]
             if is_const(t) and isinstance(t[2], tuple) and t[2][0] == "s" and len(t[2]) > 3 and t[2][3] is not None:
                 v = self.promoted_value(t[2][2], t[2][3])
                 if v is not None:
@@ -278,8 +281,23 @@ class Engine:
             sub = Engine(self.facts, inline=self.inline_pred, max_depth=self.max_depth)
             ps = [p for p in sub.run(body) if p.outcome == "return"]
             if len(ps) == 1 and ps[0].ret[0] == "ref":
-                self._promoted[key] = sub.read_loc(ps[0], ps[0].ret[1], ps[0].ret[2])
+                v = sub.read_loc(ps[0], ps[0].ret[1], ps[0].ret[2])
+                self._promoted[key] = self._export(sub, ps[0], v, key, [0])
         return self._promoted[key]
+
+    def _export(self, sub, p, v, key, counter, depth=0):
+        """make a value computed in a sub-engine self-contained: references into the sub-path's store become
+        pointer constants whose pointees are registered with this engine"""
+        if not isinstance(v, tuple) or not v or depth > 8:
+            return v
+        if v[0] == "ref":
+            counter[0] += 1
+            ptr = ("pconst", key[0], key[1], counter[0])
+            self._pconst[ptr] = self._export(sub, p, sub.read_loc(p, v[1], v[2]), key, counter, depth + 1)
+            return ptr
+        if v[0] == "agg":
+            return v[:4] + (tuple((n, self._export(sub, p, x, key, counter, depth + 1)) for n, x in v[4]),)
+        return v
 
     def read_loc(self, st, cell, path):
         v = st.store.get(cell)
@@ -459,9 +477,8 @@ class Engine:
         return ("unknown", rv.get("s", k))
 
     def pointee_of(self, st, v):
-        if v[0] == "ref":
-            return self.read_loc(st, v[1], v[2])
-        return ("deref", v)
+        c, p = self.deref_target(st, v)
+        return self.read_loc(st, c, p)
 
     def arith(self, op, a, b, ty):
         return ("bin", op, a, b, ty)
